@@ -74,15 +74,15 @@ type c14Scn struct {
 	Kind     string `json:"kind"` // open | dial | inbound | outbound | listen | malformed | ptt
 	Serial   bool   `json:"serial"`
 	Offline  bool   `json:"offline"`
-	Dial     string `json:"dial,omitempty"`     // connected | fault | disc
-	Frames   []int  `json:"frames,omitempty"`   // inbound ARQ payload sizes
+	Dial     string `json:"dial,omitempty"`   // connected | fault | disc
+	Frames   []int  `json:"frames,omitempty"` // inbound ARQ payload sizes
 	ReadBuf  int    `json:"read_buf"`
-	LateRead bool   `json:"late_read"`          // the application starts reading only after the TNC has delivered everything and disconnected
+	LateRead bool   `json:"late_read"` // the application starts reading only after the TNC has delivered everything and disconnected
 	Seg      int    `json:"seg"`
 	Writes   []int  `json:"writes,omitempty"`
-	CRCFault int    `json:"crcfault"`           // CRCFAULT answers to the first data frame (serial)
-	BufOrder int    `json:"buf_order"`          // 0: BUFFER n, PTT TRUE, BUFFER 0, PTT FALSE back to back; 1: BUFFER n, pause, BUFFER 0; 2: BUFFER n, n/2, 0 back to back
-	CloseAns int    `json:"close_ans"`          // 0 DISCONNECTED, 1 NEWSTATE DISC, 2 silence
+	CRCFault int    `json:"crcfault"`  // CRCFAULT answers to the first data frame (serial)
+	BufOrder int    `json:"buf_order"` // 0: BUFFER n, PTT TRUE, BUFFER 0, PTT FALSE back to back; 1: BUFFER n, pause, BUFFER 0; 2: BUFFER n, n/2, 0 back to back
+	CloseAns int    `json:"close_ans"` // 0 DISCONNECTED, 1 NEWSTATE DISC, 2 silence
 	Mal      int    `json:"mal"`
 	Choices  []int  `json:"choices,omitempty"`
 }
@@ -309,21 +309,21 @@ type pttRec struct{ calls []bool }
 func (p *pttRec) SetPTT(on bool) error { p.calls = append(p.calls, on); return nil }
 
 type c14Obs struct {
-	sim      *c14Sim
-	openErr  error
-	dialErr  error
-	read     []byte
-	readErr  error
-	wrote    []byte
-	writeErr error
-	shortN   []int
-	flushErr error
-	closeErr error
+	sim         *c14Sim
+	openErr     error
+	dialErr     error
+	read        []byte
+	readErr     error
+	wrote       []byte
+	writeErr    error
+	shortN      []int
+	flushErr    error
+	closeErr    error
 	flushedWith int
-	stage    string
-	appDone  bool
-	ptt      *pttRec
-	acceptErr error
+	stage       string
+	appDone     bool
+	ptt         *pttRec
+	acceptErr   error
 }
 
 const c14Ctrl, c14Data = "127.0.0.1:8515", "127.0.0.1:8516"
@@ -412,6 +412,37 @@ func c14Harness(sc c14Scn, o *c14Obs) func() {
 			}
 			tnc.SetPTT(o.ptt)
 			var conn net.Conn
+			if sc.Kind == "malformed-listen" {
+				// value-less and odd notifications while a listener is active
+				o.stage = "listen"
+				ln, err := tnc.Listen()
+				if err != nil {
+					o.acceptErr = err
+					return
+				}
+				vs.GoNamed("tnc-garbage", false, func() {
+					vs.WaitQuiescent()
+					lines := [][]string{
+						{"TARGET N0MYC", "CONNECTED"}, {"TARGET", "CONNECTED N0PEER"}, {"PENDING", "CANCELPENDING", "CONNECTED N0PEER 500"},
+						{"TARGET N0MYC", "CONNECTED  "}, {"TARGET N0MYC", "DISCONNECTED", "CONNECTED"}, {"TARGET N0MYC", "NEWSTATE", "CONNECTED x"},
+					}[sc.Mal%6]
+					for _, l := range lines {
+						sim.say(l)
+					}
+					vs.WaitQuiescent()
+					sim.ctrl.Close()
+					if sim.data != nil {
+						sim.data.Close()
+					}
+				})
+				c, err := ln.Accept()
+				o.acceptErr = err
+				if c != nil {
+					buf := make([]byte, 100)
+					c.Read(buf)
+				}
+				return
+			}
 			if sc.Kind == "listen" {
 				o.stage = "listen"
 				ln, err := tnc.Listen()
@@ -538,7 +569,7 @@ func c14Judge(sc c14Scn, o *c14Obs, res *vs.Result) (out []c14Finding) {
 	for _, c := range sim.complaints {
 		add("host-frame-malformed", "%s", c)
 	}
-	if sc.Kind == "malformed" {
+	if sc.Kind == "malformed" || sc.Kind == "malformed-listen" {
 		return
 	}
 	if res.Outcome != "done" {
@@ -666,6 +697,9 @@ func c14Scenarios(thorough bool) []c14Scn {
 			for _, rb := range []int{0, 7} {
 				out = append(out, c14Scn{Kind: "inbound", Serial: serial, Frames: fs, ReadBuf: rb, LateRead: true})
 			}
+		}
+		for m := 0; m < 6; m++ {
+			out = append(out, c14Scn{Kind: "malformed-listen", Serial: serial, Mal: m})
 		}
 		for m := 0; m <= 12; m++ {
 			out = append(out, c14Scn{Kind: "malformed", Serial: serial, Mal: m}, c14Scn{Kind: "malformed", Serial: serial, Mal: m, Seg: 1})
